@@ -261,6 +261,81 @@ def abstract_transform_case(kind, k):
     return Case(cname, body, goals, family="abstract/" + kind, params=dict(kind=kind, k=k))
 
 
+def named_axes_case(k):
+    """a disc over two separately named axes R1('x')*R1('y'); the query Points carry the variables in the OTHER order
+    (y, x): membership is by name, not by column position"""
+    cname = "contains/Circle(x*y)/query_order_yx/k%d" % k
+
+    def body(env):
+        L = env.L
+        X = tp.spaces.R1("x") * tp.spaces.R1("y")
+        c = SH.Aff(env, "Cc", 2, None)
+        r = SH.Aff(env, "Cr", 1, "t" if k else None)
+        dom = tp.domains.Circle(X, c.tp(), r.tp())
+        from oracle import sets as O
+        oset = O.OBall(c.oracle(), r.oracle(), 2)
+        n = k if k else 2
+        P, rows = SH.params(env, [("t", 1)] if k else [], k)
+        qx, qy = env.tensor("q_x", (n, 1)), env.tensor("q_y", (n, 1))
+        pts = Points.from_coordinates({"y": qy, "x": qx})
+        ex, ey = SH.elems(env, qx), SH.elems(env, qy)
+        prms = rows if k else [{} for _ in range(n)]
+        for prm in prms:
+            env.assume(oset.positive(prm, L))
+        res = dom._contains(pts, P)
+        want = [oset.closure([ex[i], ey[i]], prms[i], L, 0) for i in range(n)]
+        return dict(res=res, want=want, shape=list(res.shape), n=n)
+
+    def goals(o, L, env):
+        yield "one_truth_value_per_row", o["shape"] == [o["n"], 1]
+        if o["shape"] == [o["n"], 1]:
+            for i, (r, w) in enumerate(zip(o["res"], o["want"])):
+                yield "contains_iff_member[row%d]" % i, L.Iff(r[0], w)
+
+    return Case(cname, body, goals, family="contains/Circle(x*y)", params=dict(k=k))
+
+
+def optional_angle_case():
+    """Rotate by an angle function whose only parameter is OPTIONAL (has a default): the same object is asked with two
+    different parameter batches; every answer is the inverse image at its own row"""
+    cname = "contains/Rotate[optional t](Circle)/two_queries"
+
+    def body(env):
+        L = env.L
+        inner = SH.circle(env, tag="A")
+        env.assume(inner.oset.positive({}, L))
+        w = env.tensor("rotw1", ())
+        wv = SH.elems(env, w)[0]
+
+        def angle(t=env.const([[0.0]])):
+            return w * t
+
+        dom = tp.domains.Rotate.from_angles(inner.dom, angle)
+        out = []
+        for qi in range(2):
+            P, rows = SH.params(env, [("t", 1)], 1 + qi, tag="prm%d" % qi)
+            n = 1 + qi
+            qt = env.tensor("q%d" % qi, (n, 2))
+            q = SH.elems(env, qt)
+            res = dom._contains(Points(qt, tp.spaces.R2("x")), P)
+            want = []
+            for i in range(n):
+                c, s_ = L.cossin(wv * rows[i]["t"][0])
+                x, y = q[2 * i], q[2 * i + 1]
+                want.append(inner.oset.closure([c * x + s_ * y, -s_ * x + c * y], {}, L, 0))
+            out.append(dict(res=res, want=want, n=n, shape=list(res.shape)))
+        return dict(q=out)
+
+    def goals(o, L, env):
+        for qi, q in enumerate(o["q"]):
+            yield "one_truth_value_per_row[query%d]" % qi, q["shape"] == [q["n"], 1]
+            if q["shape"] == [q["n"], 1]:
+                for i, (r, w) in enumerate(zip(q["res"], q["want"])):
+                    yield "contains_iff_inverse_image[query%d,row%d]" % (qi, i), L.Iff(r[0], w)
+
+    return Case(cname, body, goals, family="contains/Rotate[optional t]", timeout_ms=60000)
+
+
 def point_case(k):
     cname = "contains/Point/k%d" % k
 
@@ -315,6 +390,9 @@ def cases(tier):
             cs.append(own_sample_case(name, mk, info, 3, grid=True))
     cs.append(point_case(0))
     cs.append(point_case(2))
+    cs.append(named_axes_case(0))
+    cs.append(named_axes_case(2))
+    cs.append(optional_angle_case())
     for op in "+-&":
         cs.append(abstract_bool_case(op, False))
         cs.append(abstract_bool_case(op, True))
